@@ -2,7 +2,7 @@
    Theorems only; proofs are [exact] of lemmas proved elsewhere, or vm_compute witnesses. *)
 From Coq Require Import List ZArith Bool.
 From Verif Require Import Base.Sx Base.GoVal Base.F64 Schema.Ast Schema.Build Schema.Pipeline Schema.Draft4
-  Schema.Classes Schema.PipelineFacts Schema.PipelineTerm Schema.Agreement Schema.AgreementDec.
+  Schema.Classes Schema.PipelineFacts Schema.PipelineTerm Schema.Agreement Schema.AgreementRef Schema.AgreementDec.
 Import ListNotations.
 Open Scope Z_scope.
 
@@ -106,6 +106,23 @@ Theorem C01_agreement_on_the_clean_fragment_partial :
   exists r, sv_validate OR N opt defs fuel s p q d = Ok r /\ d4 OR N defs fuel s d = Some (r_valid r).
 Proof. exact clean_fragment_agrees. Qed.
 Print Assumptions C01_agreement_on_the_clean_fragment_partial.
+
+(* ... and through references: a node may be a chain of at most K references ending in a node of the fragment (siblings
+   of $ref are ignored by both sides); definitions that are recursive have no finite level and stay outside *)
+Theorem C01_agreement_with_references_partial :
+  forall (fin : f64 -> Prop) (allow_null : bool) OR N opt defs (K : nat),
+  opt_array_must_have_items opt = false -> opt_obj_array_type_check opt = false ->
+  (forall a b, fin a -> fin b -> n_lt N a b = negb (n_le N b a)) ->
+  forall n f1 f2 s, cleanr fin allow_null OR defs K n s -> (n + K < f1)%nat -> (n * S K <= f2)%nat ->
+  forall p q d, jd fin allow_null d ->
+  exists r, sv_validate OR N opt defs f1 s p q d = Ok r /\ d4 OR N defs f2 s d = Some (r_valid r).
+Proof. exact agreement_with_references. Qed.
+Print Assumptions C01_agreement_with_references_partial.
+
+Theorem C01_fragment_decision_with_references_is_sound : forall fin_b allow_null OR defs K n s,
+  cleanr_b fin_b allow_null OR defs K n s = true -> cleanr (finP fin_b) allow_null OR defs K n s.
+Proof. exact cleanr_b_sound. Qed.
+Print Assumptions C01_fragment_decision_with_references_is_sound.
 
 (* the fragment is decidable: the procedure the harness evaluates on every case (its count is in the evidence) is sound *)
 Theorem C01_fragment_decision_is_sound : forall fin_b allow_null OR n s fuel d,
